@@ -50,7 +50,11 @@ func (c06Sys) Root() *c06State {
 	return &c06State{ctx: w.Ctx, w: w, next: 1, nextL2: 1, execs: [2]bool{true, true}, bal: map[string]int64{}, processed: map[uint64]string{}}
 }
 
-func (c06Sys) Digest(s *c06State) [32]byte { return s.w.Digest(s.ctx) }
+// the model is part of the state key: a change that turns an operation into a no-op on the stores must
+// not make the successor look like an already visited state (its model differs, and Check has to see it)
+func (c06Sys) Digest(s *c06State) [32]byte {
+	return s.w.Digest(s.ctx, []byte(fmt.Sprint(s.next, s.nextL2, s.execs, s.bal, s.supply)))
+}
 
 func (c06Sys) Letters(s *c06State) []engine.Letter {
 	var ls []engine.Letter
